@@ -18,6 +18,9 @@
 (*   <<"fromvec", x, y, l, r>> from_vector(raw difference between chip     *)
 (*                             (x, y) and its neighbour over l) = r        *)
 (*   <<"hex", r, sx, sy, seq>> list(concentric_hexagons(r, (sx, sy)))      *)
+(*   <<"lb", ax, ay, bx, by, dead, res>>  links_between(a, b, machine with  *)
+(*                             dead links `dead`) = res (set of links)     *)
+(*   <<"raise", fn, args, class>>  a geometry function raised              *)
 (* s, d, v, r are three-axis <<x, y, z>> tuples.                           *)
 (***************************************************************************)
 EXTENDS Hex, TLC, Json, IOUtils
@@ -80,6 +83,12 @@ Checks(e) ==
          LinkFromVec  |-> e[6] = e[2]]
     [] e[1] = "fromvec" ->
         [LinkFromVec |-> Nbr(<<e[2], e[3]>>, e[5], TW, TH) = Nbr(<<e[2], e[3]>>, e[4], TW, TH)]
+    [] e[1] = "lb" ->       \* <<"lb", ax, ay, bx, by, deadlinks, result>>  links_between(a, b, machine)
+        LET a == <<e[2], e[3]>>  b == <<e[4], e[5]>>
+            dead == { <<e[6][i][1], e[6][i][2], e[6][i][3]>> : i \in 1..Len(e[6]) }
+        IN [LinksBetween |-> { e[7][i] : i \in 1..Len(e[7]) } =
+                               { k \in Links : Nbr(a, k, TW, TH) = b /\ <<a[1], a[2], k>> \notin dead }]
+    [] e[1] = "raise" -> [NoException |-> FALSE]
     [] e[1] = "hex" ->
         LET r == e[2]  c0 == <<e[3], e[4]>>  seq == e[5]
             D(i) == MeshTab[<<seq[i][1] - c0[1], seq[i][2] - c0[2]>>]
